@@ -267,6 +267,11 @@ func prop(c harness.Case) harness.Result {
 			// census of all blocks together
 			for pass := 0; pass < 2; pass++ {
 				var buf bytes.Buffer
+				if pass == 1 {
+					// a writer with spare capacity (a buffer grown ahead): what the
+					// renderer writes does not depend on the writer's state
+					buf.Grow(32 << 10)
+				}
 				if err := r.Render(&buf, blocks); err != nil {
 					res.Err = fmt.Errorf("soft=%v ignoreRaw=%v Render: %v", cf.soft, cf.ignore, err)
 					return res
